@@ -8,6 +8,7 @@ mod c01;
 mod c02;
 mod c03;
 mod c04;
+mod c05;
 mod c06;
 mod c07;
 mod c08;
@@ -43,6 +44,7 @@ fn property(id: &str) -> Option<Box<dyn Property>> {
         "C02" => Box::new(c02::C02::new()),
         "C03" => Box::new(c03::C03::new()),
         "C04" => Box::new(c04::C04::new()),
+        "C05" => Box::new(c05::C05::new()),
         "C06" => Box::new(c06::C06::new()),
         "C07" => Box::new(c07::C07::new()),
         "C08" => Box::new(c08::C08::new()),
